@@ -112,7 +112,7 @@ CHECKS = {
              "equals a fresh library evaluation, every qualifying table transition bracketed by an adjacent-minute A/B (a/b) pair, "
              "monthly and year-end samples; 10 data sets rendered by ArduinoValidationGenerator, compiled and read back.",
         note="For dateutil the bracketing clause excludes zones with negative DST, DST-only changes and the last table entry (library API "
-             "and table disagree there; counted). validator.zstdgenerator (ZoneSpecifier-based) is not exercised.",
+             "and table disagree there; counted). validator.zstdgenerator is checked on tools/zonedbpy zones against ZoneSpecifier's transitions (A/B pair at adjacent seconds) and pytz (fields).",
         design="2/C19"),
     "C20": dict(
         technique="metamorphic relations over compiler runs (repeat under another hash seed, import vs in-memory, counts vs entries, basic vs extended differential) + zic differential on the checked-in Python database",
